@@ -239,6 +239,12 @@ def takeRows (xs : List α) : Option (List Nat) → Except Err (List α)
     | some r => .ok r
     | none => .error .index
 
+/-- `ind_start = block_indices[-1] + 1` if the block is not empty, else unchanged -/
+def nextStart (bi : List Nat) (s : Nat) : Nat :=
+  match bi.getLast? with
+  | some l => l + 1
+  | none => s
+
 /-- The loop of the `evaluate_jacobian=True` branch: row slicing, `block_indices =
     arange(block_length) + ind_start`, `ind_start = block_indices[-1] + 1` if the block is not
     empty.  Returns the stacked rows and `assembled_equation_indices`. -/
@@ -249,10 +255,7 @@ def jacLoop (ev : Nat → List Row) : Blocks → Nat → Except Err (List Row ×
     | .error e => .error e
     | .ok rows =>
       let bi := (List.range rows.length).map (· + s)
-      let s' := match bi.getLast? with
-        | some l => l + 1
-        | none => s
-      match jacLoop ev rest s' with
+      match jacLoop ev rest (nextStart bi s) with
       | .error e => .error e
       | .ok (rs, ix) => .ok (rows ++ rs, (name, bi) :: ix)
 
